@@ -11,7 +11,7 @@
    Reverse scans are stated from an arbitrary start cursor: they return what lies strictly below it (with the
    empty cursor: nothing — the behaviour the repository's own tests fix; DESIGN.md S1). *)
 From ZV Require Import Common.Bytes Scan.Consts Scan.Model Scan.ProofsOrder Scan.ProofsIter Scan.ProofsRange Scan.Proofs
-     Scan.ProofsMerge Scan.ProofsCluster Scan.ProofsB64 Scan.ProofsCursor Scan.ProofsCodec Scan.ProofsFull.
+     Scan.ProofsMerge Scan.ProofsCluster Scan.ProofsB64 Scan.ProofsCursor Scan.ProofsCodec Scan.ProofsFull Scan.ProofsFullCodec.
 From ZV Require Codec.Spec Codec.Keys.
 From Coq Require Import Sorting.Sorted ZArith Permutation.
 Open Scope N_scope.
@@ -366,6 +366,31 @@ Theorem C13_fullscan_exact :
         length pages = (length R / eff_count count + 1)%nat.
 Proof. exact fullscan_exact. Qed.
 Print Assumptions C13_fullscan_exact.
+
+(* (14) FULLSCAN on engine BYTES: over the byte image of a well-formed key universe (C12's codec model; byte
+   valued, collections and lists with non-empty key names) the hypothesis of (13) holds (C12's table-range
+   theorem identifies the owners of the keys under the table prefix), and the iteration returns exactly the
+   items (key, element) of the keys of the addressed type and table whose key matches — KV: (table:key, -),
+   hash/set/zset: (key, member), list: (key, sequence number) — each once. *)
+Theorem C13_fullscan_on_engine_bytes :
+  forall compile (xs : list Codec.Spec.ekey),
+    Forall Codec.Spec.wf_ekey xs ->
+    Forall (fun x => bytes_ok (Codec.Spec.encode_ekey x) = true) xs ->
+    Forall (fun x => match x with
+                     | Codec.Spec.KColl _ _ k _ | Codec.Spec.KList _ k _ => k <> []
+                     | _ => True end) xs ->
+    sorted_db (store_of xs) ->
+    forall (d : dtype) (table pat : bytes) (mk : bytes -> bool) (count : Z),
+      ~ In key_sep table -> N.of_nat (length table) < 65536 ->
+      matcher compile pat = Some mk -> (1 <= count)%Z ->
+      forall fuel, (length xs / eff_count count < fuel)%nat ->
+      exists pages,
+        iterate_fullscan compile fuel (store_of xs) d table pat count = (pages, Done) /\
+        (forall it, In it (concat (map fst pages)) <->
+           exists x, In x xs /\ fs_member (fs_store_type d) table x /\ fs_item_of x = it /\ mk (fst it) = true) /\
+        (length pages <= length xs / eff_count count + 1)%nat.
+Proof. exact fullscan_store. Qed.
+Print Assumptions C13_fullscan_on_engine_bytes.
 
 (* ---------- non-vacuity: a concrete store ---------- *)
 (* hash t:h = {a, ab, b}, hash t:h2 = {a}, set t:h = {a}; KV keys t:a t:ab t:b t2:a u:a *)
